@@ -475,15 +475,16 @@ def check_tables(run):
     if model_set != real_set:
         diff = sorted(model_set ^ real_set)[:10]
         run.disagree("unicode-digit-table", {"first_differences": [hex(c) for c in diff]}, len(model_set), len(real_set), in_domain=True)
-    from lasio import defaults
-    pat, sub = defaults.READ_SUBS["comma-decimal-mark"][0]
-    if pat.pattern != r"(\d),(\d)" or sub != r"\1.\2" or pat.flags & re.ASCII:
-        run.disagree("comma-substitution-pattern", {"pattern": pat.pattern, "sub": sub, "flags": int(pat.flags)}, r"(\d),(\d) -> \1.\2 (unicode)",
-                     pat.pattern, in_domain=True)
-    from lasio import reader
-    g = reader.numeric_literal_regex
-    if g.pattern != r"[+-]?(\d+\.?\d*|\.\d+)([eE][+-]?\d+)?" or not (g.flags & re.ASCII):
-        run.disagree("guard-pattern", {"pattern": g.pattern, "flags": int(g.flags)}, "[+-]?(\\d+\\.?\\d*|\\.\\d+)([eE][+-]?\\d+)? ASCII", g.pattern, in_domain=True)
+    # NOTE: the TEXT of the two regular expressions is deliberately not compared with a pinned string (a harmless respelling such as
+    # [0-9] for \d + re.ASCII must not raise an alarm): their behaviour is compared on every string of the exhaustive and
+    # generated streams through `num.commasub` / `num.plain` above.
+    try:
+        from lasio import defaults, reader
+        pat, sub = defaults.READ_SUBS["comma-decimal-mark"][0]
+        run.notes.append("comma pattern %r -> %r flags=%d; guard pattern %r flags=%d" % (pat.pattern, sub, int(pat.flags), reader.numeric_literal_regex.pattern,
+                                                                                        int(reader.numeric_literal_regex.flags)))
+    except Exception as e:
+        run.notes.append("internal regex objects not found under their usual names (%r): step-level comparison skipped" % (e,))
     import sys
     if sys.get_int_max_str_digits() != 4300:
         run.notes.append("sys.get_int_max_str_digits() = %d (model: 4300)" % sys.get_int_max_str_digits())
@@ -571,9 +572,13 @@ def run(run):
             if m != p.strip_brackets(u):
                 run.disagree("strip_brackets", {"s": u}, m, p.strip_brackets(u), in_domain=True)
     # the two regex steps on their own (the num-level comparison masks them): comma substitution incl. a non-ASCII digit, and the guard
-    if run.model is not None:
+    try:
         from lasio import defaults, reader
         pat, sub = defaults.READ_SUBS["comma-decimal-mark"][0]
+        guard = reader.numeric_literal_regex
+    except Exception:
+        pat = guard = None       # internals renamed: the num()-level streams above still cover the behaviour
+    if run.model is not None and pat is not None:
         texts = ["".join(t) for k in range(0, run.budget(6, 7) + 1) for t in itertools.product("1٢,.e ", repeat=k)] + odd_texts() + boundary_texts()
         texts = [t for t in texts if "\x00" not in t]
         ans = run.model.ask([{"op": "num.commasub", "s": t} for t in texts], chunk=512)
@@ -584,7 +589,7 @@ def run(run):
         ans = run.model.ask([{"op": "num.plain", "s": t} for t in texts], chunk=512)
         for t, m in zip(texts, ans):
             run.traces += 1
-            real = reader.numeric_literal_regex.fullmatch(t) is not None
+            real = guard.fullmatch(t) is not None
             if m != real or (real != (dfa_literal(t) is not None)):
                 run.disagree("guard-regex", {"s": t, "dfa": dfa_literal(t) is not None}, m, real, in_domain=True)
         run.dist["regex-steps"] = len(texts)
